@@ -5,7 +5,7 @@ from .common import Violation
 
 
 def run(ctx, *, go_cmds, lean_targets, prop_file, theorems, trace_targets, corr_runs, search_runs,
-        corr_name, driver_args, assumptions=(), trusted=(), leancheck=True, gates=False, ok_exit=(0,), what='real code', spec='proved specification'):
+        corr_name, driver_args, assumptions=(), trusted=(), leancheck=True, gates=False, ok_exit=(0,), what='real code', spec='proved specification', const=None):
     common.go_build(go_cmds)
     common.lake_build(lean_targets + ['driver'])
     common.audit(ctx, prop_file, theorems)
@@ -16,13 +16,13 @@ def run(ctx, *, go_cmds, lean_targets, prop_file, theorems, trace_targets, corr_
     tmism = common.trace_tie(ctx, trace_targets) if trace_targets else []
     found = None
     for go_cmd, args in corr_runs:
-        n, mism, _ = common.corr(ctx, corr_name, go_cmd, args, driver_args, ok_exit=ok_exit)
+        n, mism, _ = common.corr(ctx, corr_name, go_cmd, args, driver_args, ok_exit=ok_exit, const=const)
         if mism:
             found = (go_cmd, args, mism)
             break
     if not found and tmism:
         for go_cmd, args in search_runs:
-            n, mism, _ = common.corr(ctx, corr_name + '-search', go_cmd, args, driver_args, ok_exit=ok_exit)
+            n, mism, _ = common.corr(ctx, corr_name + '-search', go_cmd, args, driver_args, ok_exit=ok_exit, const=const)
             if mism:
                 found = (go_cmd, args, mism)
                 break
@@ -31,7 +31,7 @@ def run(ctx, *, go_cmds, lean_targets, prop_file, theorems, trace_targets, corr_
         go_cmd, args, mism = found
         i, line, code, model = mism[0]
         replay = common.write_replay(ctx, 'corr', {'kind': 'corr', 'go_cmd': go_cmd, 'go_args': [str(a) for a in args],
-                                                  'driver_args': driver_args, 'index': i, 'case': line,
+                                                  'driver_args': driver_args, 'const': const, 'index': i, 'case': line,
                                                   'code_says': code, 'spec_says': model, 'trace_mismatches': tmism[:3]})
         raise Violation(f'{what} says {code[:200]}, {spec} says {model[:200]} for case #{i}: {line[:300]}', replay)
     if tmism:
@@ -46,7 +46,7 @@ def replay(ctx, data, go_cmds):
     common.go_build(go_cmds)
     common.lake_build(['driver'])
     if data.get('kind') == 'corr':
-        n, mism, _ = common.corr(ctx, 'replay', data['go_cmd'], data['go_args'], data['driver_args'])
+        n, mism, _ = common.corr(ctx, 'replay', data['go_cmd'], data['go_args'], data['driver_args'], const=data.get('const'))
         hit = [m for m in mism if m[0] == data['index']] or mism
         if hit:
             print(f'REPLAY reproduces: case #{hit[0][0]} code={hit[0][2][:200]} spec={hit[0][3][:200]}\n{hit[0][1][:500]}')
